@@ -373,6 +373,9 @@ int tls13_do_recv(TLS_CONNECT *conn)
 	if (tls13_gcm_decrypt(key, iv,
 		seq_num, record + 5, recordlen - 5,
 		&record_type, conn->databuf, &conn->datalen) != 1) {
+		// nothing was received: a later tls13_recv() must not copy from the stale data pointer
+		conn->data = conn->databuf;
+		conn->datalen = 0;
 		error_print();
 		return -1;
 	}
